@@ -725,6 +725,15 @@ func extraCommand(cmd string, args []string) bool {
 	case "rpcstress":
 		runRPCStress(args)
 		return true
+	case "agenttable":
+		runAgentTable(args)
+		return true
+	case "agentcli":
+		runAgentCLI(args)
+		return true
+	case "agentlife":
+		runAgentLife(args)
+		return true
 	case "dispatchtable":
 		runDispatchTable(args)
 		return true
